@@ -286,7 +286,9 @@ def judge (_id : String) (lines : Array String) : Verdict := Id.run do
       let tup := match op with
         | .tupdate id n s => (c.tmpls id).map fun os => (id, os, if n.isEmpty then id else n, if s.isEmpty then os else s)
         | _ => none
-      let isDev := devStartFail env fail c op resp
+      -- the recorded deviation start-failure-after-commit: the decidable clause `leaves500` of the spec on the
+      -- observed answer (theorem answer_500_effects_characterised), with the catalogue `effect500` it characterises
+      let isDev := resp == .fail && leaves500 env fail c op
       let multi := (ntxObs.getD 0) > 1
       -- expectation for the request as answered (no crash)
       let p0 : Pending :=
@@ -302,7 +304,7 @@ def judge (_id : String) (lines : Array String) : Verdict := Id.run do
             devModel := some "template-update-rollback-incomplete" }
         | _, _ =>
           { cands := [specStep env fail c op resp], tup := tup, what := l,
-            dev := if isDev then some ("start-failure-after-commit", devStartFailOut env fail c op) else none }
+            dev := if isDev then some ("start-failure-after-commit", effect500 env fail c op) else none }
       let sameW := fun (a b : World) => storeEq ids mids a.store b.store && ids.all (fun i => a.exec i == b.exec i)
       let p : Pending :=
         match cut with
